@@ -8,12 +8,12 @@ P = {
  "C01": dict(
   technique="property-based testing (proptest): generated series x window x min_periods x element/output types vs from-scratch reference model, long-history drift runs, shrinking to replay files",
   text="Generated-input search: every position of every generated series is compared with an independent from-scratch evaluation of its window (two-pass moments, explicit weights), for 18 entry points, 6 input and 5 output element types, returned and out-buffer paths, plus 2k-20k element histories. Shows agreement on everything generated, not absence of defects.",
-  note="Oracle tolerance is the condition-aware bound of DESIGN 5.9 (defects below ~1e3 x measured rounding error are invisible); Vec backend only (other backends are C07); finite inputs; plain family on null-free data. Sub-properties integer_edges:* run sum / mean / std / wma on i32 series containing the type minimum or maximum and on u64 / usize series (every window sum representable).",
+  note="Oracle tolerance is the condition-aware bound of DESIGN 5.9 (defects below ~1e3 x measured rounding error are invisible); Vec backend only (other backends are C07); finite inputs; plain family on null-free data. Sub-properties integer_edges:* run sum / mean / std / wma on i32 series containing the type minimum or maximum and on u64 / usize series (every window sum representable). Sub-properties price:* use tick data at a price level (level / spread 1e3..1e7, level jumps); huge_window:* use 30 000-70 000 element series with windows holding most of the series, compared at ~34 positions.",
   ref="6 C01, 5.1, 5.6, 5.9"),
  "C02": dict(
   technique="model-based property testing: recording stateful callback vs explicit call-sequence model, exhaustive small scope (len<=12, all windows) plus random larger cases over all backends",
   text="Every driver entry point is run with a recording, stateful callback on every backend and output path; the recorded call sequence, arguments, slices and output placement are compared with an explicit model. Exhaustive for len 0..=12 x w 1..=len+3; random beyond.",
-  note="Polars cells limited to documented-supported paths (DESIGN 5.7); the removed argument at the single unspecified position is not compared. Sub out_view_placement (enumerated) writes through strided / reversed ndarray out views inside a padded sentinel buffer and checks placement and that nothing else is written; sub deque_out_buffer_and_longer_second_series writes into physically wrapped VecDeque out buffers and passes a second series longer than the first; the small scope also contains the two expanding windows usize::MAX and 2^63. The subs that touch real containers run first in a child process (engine canary): a child killed by a signal is a reported violation.",
+  note="Polars cells limited to documented-supported paths (DESIGN 5.7); the removed argument at the single unspecified position is not compared. Sub out_view_placement (enumerated) writes through strided / reversed ndarray out views inside a padded sentinel buffer and checks placement and that nothing else is written; sub deque_out_buffer_and_longer_second_series writes into physically wrapped VecDeque out buffers and passes a second series longer than the first; the small scope also contains the two expanding windows usize::MAX and 2^63. The subs that touch real containers run first in a child process (engine canary): a child killed by a signal is a reported violation. The longer second series is also passed to an ndarray first series (owned / strided view) on the returned path.",
   ref="6 C02"),
  "C03": dict(
   technique="property-based testing (proptest) with tie-heavy / monotone-run generators vs exact per-window reference, plus coverage-guided fuzzing (libFuzzer) of the extrema state machine in the thorough tier",
@@ -28,12 +28,12 @@ P = {
  "C05": dict(
   technique="property-based testing (proptest): boolean null-mask law and length law over all rolling entry points x backends x lengths incl. 0 and len<w",
   text="For every rolling entry point the output length must equal the input length and the null mask must follow from the counted valid observations, min_periods (explicit or omitted) and the intrinsic minimum; data classes make 'defined' decidable exactly.",
-  note="Extrema family with omitted min_periods only for len >= w (5.3); integer outputs only checked in the null direction. The two-series law is also run on Option element types (a null Option in a window must not panic).",
+  note="Extrema family with omitted min_periods only for len >= w (5.3); integer outputs only checked in the null direction. The two-series law is also run on Option element types (a null Option in a window must not panic). type_extreme_windows:* feed windows 2^31 .. usize::MAX (omitted and explicit min_periods) to every single-series entry point; the EWM is not asserted above w = 2^40 (alpha = 2/w below f64 resolution, DESIGN 5.2).",
   ref="6 C05, 5.3, 5.6"),
  "C06": dict(
   technique="metamorphic property testing (proptest): prefix relation (bit-for-bit) over every cut, and pre-window-history replacement relation within the 5.9 bound (exact for extrema/rank)",
   text="Two metamorphic relations over generated inputs: f(x[..c]) == f(x)[..c] bitwise for every cut c and every rolling / lagging entry point; replacing the pre-window history by other bounded finite values changes results by at most the rounding bound (exactly nothing for min/max/arg/rank).",
-  note="Histories bounded per DESIGN 5.2; tolerance 5.9 evaluated with the magnitude of both histories. Half of the float cases carry signed zeros, so the bit pattern reported by min / max must not depend on the history either.",
+  note="Histories bounded per DESIGN 5.2; tolerance 5.9 evaluated with the magnitude of both histories. Half of the float cases carry signed zeros, so the bit pattern reported by min / max must not depend on the history either. The history relation also runs on tick data at a price level (value class price_ticks).",
   ref="6 C06, 5.2"),
  "C07": dict(
   technique="differential property testing (proptest + exhaustive small scope): same logical sequence materialised in every backend / rotation / stride / chunking, results compared bitwise with the Vec reference; accessor coherence model",
@@ -53,7 +53,7 @@ P = {
  "C10": dict(
   technique="property-based testing with instrumented containers (access-log / write-log monitors) implementing the public backend traits; libFuzzer+ASan on the real containers in the thorough tier",
   text="All rolling, rank, partition and quantile kernels run against an instrumented input view (logs every unchecked access) and an instrumented output buffer (logs every write); outcome must be a completed call with a clean log and every slot written exactly once, or a clean panic before any bad access.",
-  note="Instrumented containers re-use the library's own default driver bodies; sub real_containers runs the kernels on the real Vec / wrapped VecDeque / strided ndarray view against the model, sub real_out_buffers (canary: first in a child process) writes into wrapped VecDeque and strided / reversed ndarray out buffers of the real containers, and the thorough tier repeats the kernels under ASan with libFuzzer (fz_kernel).",
+  note="Instrumented containers re-use the library's own default driver bodies; sub real_containers runs the kernels on the real Vec / wrapped VecDeque / strided ndarray view against the model, sub real_out_buffers (canary: first in a child process) writes into wrapped VecDeque and strided / reversed ndarray out buffers of the real containers, and the thorough tier repeats the kernels under ASan with libFuzzer (fz_kernel). two_series_kernels also drives the iterator (returned) path of the default two-series drivers (option view and VecDeque first series, shorter / longer second series) into the instrumented container, which compares the announced length with the yield.",
   ref="6 C10"),
  "C11": dict(
   technique="property-based testing (proptest): textbook reference definitions on the non-null elements, null law, permutation invariance (metamorphic)",
@@ -63,7 +63,7 @@ P = {
  "C12": dict(
   technique="property-based testing (proptest): sort-based order-statistic reference and validity predicates for partitions",
   text="Quantiles, percentile-of-score, ranks compared with a sort-based reference; partitions checked by a validity predicate (exact length k+1, multiset of the k+1 smallest/largest valid values, padding only at the end, sortedness when asked).",
-  note="(n-1)q within 8 u (n-1) of an integer accepts either neighbour (DESIGN 5.5; grid points nudged by 1e-13 / 1e-11 must be treated as off-grid). Partitions also run on non-nullable integer element types whenever k+1 <= len (no padding exists for them, 5.7); sub wide_integers shifts integer series beyond 2^53 (i64 / Option<i64>): ranks and partitions must be those of the offsets.",
+  note="(n-1)q within 8 u (n-1) of an integer accepts either neighbour (DESIGN 5.5; grid points nudged by 1e-13 / 1e-11 must be treated as off-grid). Partitions also run on non-nullable integer element types whenever k+1 <= len (no padding exists for them, 5.7); sub wide_integers shifts integer series beyond 2^53 (i64 / Option<i64>): ranks and partitions must be those of the offsets. For q = a/2^k without nudge the index is exact and only s[r] itself is accepted (q = 0 minimum, q = 1 maximum for every method).",
   ref="6 C12, 5.5"),
  "C13": dict(
   technique="property-based testing (proptest): positional reference interpreter for shift/diff/pct_change/fill/clip/abs, algebraic laws (clip idempotence, containment)",
@@ -103,7 +103,7 @@ P = {
  "C20": dict(
   technique="property-based testing (proptest): clip-to-interval predicate for winsorize, rank+Pearson model and monotone-map metamorphic relation for Spearman, bracket model and termination for half_life",
   text="winsorize checked against independently computed bounds (nulls kept, inside values bit-identical, others on the nearer bound, order preserved); Spearman vs Pearson of average ranks and invariance under exact increasing maps; half_life must return in range without panic and equal the first lag with autocorrelation <= 0.5 for well-shaped series.",
-  note="Overflow checks on, so a wrapped bracket panics instead of looping; watchdog as backstop. Spearman is also evaluated on Option<i64> series shifted beyond 2^53 (order-only invariance).",
+  note="Overflow checks on, so a wrapped bracket panics instead of looping; watchdog as backstop. Spearman is also evaluated on Option<i64> series shifted beyond 2^53 (order-only invariance). Sub half_life:small_integer_scope enumerates every series of length 7 over {0..6} (thorough: also lengths 6, 8, 9): an autocorrelation within 1e-9 of 0.5 is decided by the library's own Pearson correlation of the series with its lagged copy.",
   ref="6 C20"),
 }
 
